@@ -258,6 +258,10 @@ func (t *Transaction) checkIndexes() error {
 	tables := t.Cache.Tables()
 	for _, table := range tables {
 		tc := t.Cache.Table(table)
+		// two rows of the transaction holding the same value
+		if err := tc.DuplicateIndex(); err != nil {
+			return err
+		}
 		for _, row := range tc.RowsShallow() {
 			err := tc.IndexExists(row)
 			if err != nil {
